@@ -26,7 +26,11 @@ NOTES = {
 REBASED = {"C04-b", "C04-d", "C05-c", "C09-d", "C10-d", "C11-d"}
 ids = sys.argv[1:] or sorted(d for d in os.listdir(SEEDED) if os.path.isdir(os.path.join(SEEDED, d)))
 rows = []
-for sid in ids:
+from concurrent.futures import ThreadPoolExecutor
+JOBS = int(os.environ.get("SEED_JOBS", "4"))
+EXTRA = os.environ.get("SEED_EXTRA_CHECKS", "")  # e.g. "C01-d:C04,C06"
+extra = dict(x.split(":") for x in EXTRA.split() if ":" in x)
+def one(sid):
     d = os.path.join(SEEDED, sid)
     am = json.load(open(os.path.join(d, "agent_meta.json")))
     prop = sid.split("-")[0]
@@ -39,7 +43,7 @@ for sid in ids:
     meta = {
         "id": sid, "property": prop,
         "summary": am.get("summary"), "needs": am.get("needs"), "files": am.get("files"),
-        "demonstration": {"file": "demo_test.go", "cmd": am.get("demo_cmd")},
+        "demonstration": {"file": "demo_test.go", "cmd": am.get("demo_cmd") or (am.get("demonstration") or {}).get("cmd")},
         "confirmed_by_us": {
             "demo_passes_without_change": bool(demo and demo.group(1) == "PASS"),
             "demo_fails_with_change": bool(demo and demo.group(2) == "FAIL"),
@@ -53,7 +57,9 @@ for sid in ids:
     if sid in REBASED:
         meta["patch_note"] = "patch.diff carries the agent's change over the later hook commit 901951d (an inert verifPoint line next to the changed statement); the change as delivered, against 6e387b2, is patch.at-6e387b2.diff"
     json.dump(meta, open(os.path.join(d, "meta.json"), "w"), indent=1)
-    print(sid, meta["check_result"]["verdict"], flush=True)
+    print(sid, meta["check_result"]["verdict"], " ".join(meta["check_result"]["signatures"][:2]), flush=True)
+with ThreadPoolExecutor(JOBS) as ex:
+    list(ex.map(one, ids))
 for sid in sorted(d for d in os.listdir(SEEDED) if os.path.isfile(os.path.join(SEEDED, d, "meta.json"))):
     meta = json.load(open(os.path.join(SEEDED, sid, "meta.json")))
     rows.append((sid, meta["check_result"]["verdict"] + (" (after strengthening)" if "history" in meta and "MISSED" in meta["history"] else ""), " ".join(meta["check_result"]["signatures"][:3]), meta["confirmed_by_us"]["repository_suite_with_change"].split(" at ")[0]))
